@@ -109,6 +109,24 @@ CH = {
     'sort_multi': ('<dtml-in seq sort=secret,pub><dtml-var pub>,</dtml-in>', lambda s, c: dict(seq=two(s, c)), ('secret',), ()),
     'tree_sort': ('<dtml-tree root sort=secret><dtml-var pub></dtml-tree>', lambda s, c: dict(root=Item(pub='r', _kids=[Item(pub='k0', secret=s, _kids=[]), Item(pub='k1', secret=c, _kids=[])]), URL='u', RESPONSE=Response(), expand_all=1), ('secret',), ()),
 }
+# the same channels read AFTER an unrestricted template (plain HTML, no guards) was rendered into the shared namespace, by name and
+# from an expression: the including template's guards must still be in force
+PLAINSUB = HTML('s<dtml-var pub missing="">')
+PLAINSUB.cook()
+
+
+def _after(build):
+    def b(s, c):
+        ns = build(s, c)
+        ns['plainsub'] = PLAINSUB
+        return ns
+    return b
+
+
+for _k in ('with_obj', 'with_only', 'expr_attr', 'expr_item', 'in_item', 'in_item_skip', 'in_item_batch', 'fmt_method', 'with_in_item', 'tree_items'):
+    _src, _b, _da, _di = CH[_k]
+    CH[_k + '_after_plain_sub'] = ('<dtml-var plainsub>|' + _src, _after(_b), _da, _di)
+    CH[_k + '_after_plain_sub_expr'] = ('<dtml-var "plainsub(None, _)">|' + _src, _after(_b), _da, _di)
 T = {k: cooked(v[0]) for k, v in CH.items()}
 
 
